@@ -56,6 +56,8 @@ fn doc_from_walk(format: Format, name: String, set: &str, bytes: Vec<u8>, w: Wal
         set: set.to_string(),
         item_ends: Arc::new(w.record_ends),
         header_end: w.header_end,
+        raw: false,
+        equiv_of: None,
     }
 }
 
@@ -124,8 +126,8 @@ pub fn make_doc(format: Format, name: impl Into<String>, set: &str, bytes: Vec<u
             let inner = inner_from(iw, text, vec![0], &name);
             let mut w = Walk::default();
             w.boundaries = vec![10, bytes.len() - 8, bytes.len() - 4, bytes.len()];
-            w.fields.push(crate::Field { offset: bytes.len() - 8, width: 4, kind: "gz.crc32", enc: crate::Enc::Le });
-            w.fields.push(crate::Field { offset: bytes.len() - 4, width: 4, kind: "gz.isize", enc: crate::Enc::Le });
+            w.fields.push(crate::Field { offset: bytes.len() - 8, width: 4, kind: "gz.crc32", enc: crate::Enc::Le, extra: Vec::new() });
+            w.fields.push(crate::Field { offset: bytes.len() - 4, width: 4, kind: "gz.isize", enc: crate::Enc::Le, extra: Vec::new() });
             let w = w.finish(bytes.len());
             doc_from_walk(format, name, set, bytes, w, Some(inner), big)
         }
@@ -600,4 +602,235 @@ pub fn corpus(thorough: bool) -> Vec<Doc> {
 /// Looks a document up by name.
 pub fn find<'a>(docs: &'a [Doc], name: &str) -> Option<&'a Doc> {
     docs.iter().find(|d| d.name == name)
+}
+
+// ------------------------------------------------------------------------------------ extra documents
+
+/// Builds a `Doc` for an uncompressed BAM / BCF record stream (read with `Reader::from`).
+pub fn make_raw_doc(format: Format, name: impl Into<String>, set: &str, bytes: Vec<u8>) -> Doc {
+    let name = name.into();
+    let w = match format {
+        Format::Bam => walk::bam(&bytes),
+        Format::Bcf => walk::bcf(&bytes),
+        _ => fail(&name, "raw documents are BAM or BCF"),
+    };
+    let mut d = doc_from_walk(format, name, set, bytes, w, None, false);
+    d.raw = true;
+    d
+}
+
+/// Compresses `stream` with the noodles BGZF writer, flushing at the given uncompressed offsets.
+fn bgzip_at(stream: &[u8], flush_at: &[usize]) -> Vec<u8> {
+    let mut w = bgzf::io::Writer::new(Vec::new());
+    let mut prev = 0;
+    for &f in flush_at {
+        if f > prev && f <= stream.len() {
+            ok("bgzf write", w.write_all(&stream[prev..f]));
+            ok("bgzf flush", w.flush());
+            prev = f;
+        }
+    }
+    ok("bgzf write", w.write_all(&stream[prev..]));
+    ok("bgzf finish", w.finish())
+}
+
+/// An uncompressed BAM stream whose `l_text` covers `pad` NUL bytes after the header text (legal; neither
+/// noodles nor htslib write it). Returns (stream, offset of the first padding byte).
+fn bam_padded(stream: &[u8], pad: usize) -> (Vec<u8>, usize) {
+    let l_text = walk::le_u32(stream, 4).unwrap();
+    let mut out = stream[..4].to_vec();
+    out.extend_from_slice(&((l_text + pad) as u32).to_le_bytes());
+    out.extend_from_slice(&stream[8..8 + l_text]);
+    let at = out.len();
+    out.resize(at + pad, 0);
+    out.extend_from_slice(&stream[8 + l_text..]);
+    (out, at)
+}
+
+/// An uncompressed BCF stream whose `l_text` covers `pad` additional NUL bytes after the NUL terminator.
+fn bcf_padded(stream: &[u8], pad: usize) -> (Vec<u8>, usize) {
+    let l_text = walk::le_u32(stream, 5).unwrap();
+    let mut out = stream[..5].to_vec();
+    out.extend_from_slice(&((l_text + pad) as u32).to_le_bytes());
+    out.extend_from_slice(&stream[9..9 + l_text]);
+    let at = out.len();
+    out.resize(at + pad, 0);
+    out.extend_from_slice(&stream[9 + l_text..]);
+    (out, at)
+}
+
+fn text_tabix(data: &[u8], kind: &str) -> Vec<u8> {
+    use csi::binning_index::index::{header::Builder, reference_sequence::bin::Chunk};
+    use std::io::BufRead;
+    let mut r = bgzf::io::Reader::new(data);
+    let mut ix = tabix::index::Indexer::default();
+    ix.set_header(if kind == "bed.gz" { Builder::bed().build() } else { Builder::gff().build() });
+    let mut line = String::new();
+    let mut start = r.virtual_position();
+    loop {
+        line.clear();
+        if ok("read_line", r.read_line(&mut line)) == 0 {
+            break;
+        }
+        let end = r.virtual_position();
+        let t = line.trim_end();
+        if !t.starts_with('#') && !t.is_empty() {
+            let f: Vec<&str> = t.split('\t').collect();
+            let (name, s, e) = if kind == "bed.gz" { (f[0], f[1].parse::<usize>().unwrap() + 1, f[2].parse::<usize>().unwrap()) } else { (f[0], f[3].parse().unwrap(), f[4].parse().unwrap()) };
+            let (s, e) = (noodles_core::Position::new(s).unwrap(), noodles_core::Position::new(e).unwrap());
+            ok("tabix add_record", ix.add_record(name, s, e, Chunk::new(start, end)));
+        }
+        start = end;
+    }
+    let mut w = tabix::io::Writer::new(Vec::new());
+    ok("tbi write", w.write_index(&ix.build()));
+    ok("tbi finish", w.into_inner().finish())
+}
+
+fn line_ends(text: &[u8]) -> Vec<usize> {
+    text.iter().enumerate().filter(|(_, c)| **c == b'\n').map(|(i, _)| i + 1).collect()
+}
+
+fn build_extra(thorough: bool) -> Vec<Doc> {
+    let base = corpus(thorough);
+    let get = |n: &str| match find(&base, n) {
+        Some(d) => d.clone(),
+        None => fail("extra documents", format!("corpus document {n} not found")),
+    };
+    let mut out: Vec<Doc> = Vec::new();
+
+    // ---- BAM / BCF whose l_text covers NUL padding
+    let bam = get("bam-mapped-f2");
+    let bi = bam.inner.as_ref().unwrap();
+    let rec_flush: Vec<usize> = std::iter::once(bi.header_end).chain(bi.record_ends.iter().copied().skip(1).step_by(2)).collect();
+    let mut pads: Vec<usize> = vec![1, 64, 300];
+    if thorough {
+        pads.push(9000);
+    }
+    for &pad in &pads {
+        let (s, at) = bam_padded(&bi.bytes, pad);
+        let shift = |v: &[usize]| v.iter().map(|x| x + pad).collect::<Vec<_>>();
+        let mut d = make_raw_doc(Format::Bam, format!("bamraw-padded{pad}"), "mapped", s.clone());
+        d.equiv_of = Some(bam.name.clone());
+        out.push(d);
+        if pad <= 300 {
+            // header in one block
+            let mut d = make_doc(Format::Bam, format!("bam-padded{pad}"), "mapped", bgzip_at(&s, &shift(&rec_flush)), false);
+            d.equiv_of = Some(bam.name.clone());
+            out.push(d);
+        }
+        if pad >= 64 {
+            // a BGZF block boundary inside the padding
+            let mut fl = vec![at + pad / 3];
+            fl.extend(shift(&rec_flush));
+            let mut d = make_doc(Format::Bam, format!("bam-padded{pad}-split"), "mapped", bgzip_at(&s, &fl), false);
+            d.equiv_of = Some(bam.name.clone());
+            out.push(d);
+        }
+    }
+    {
+        // the complete stream without any padding, uncompressed (the reader API takes any Read)
+        let mut d = make_raw_doc(Format::Bam, "bamraw-mapped", "mapped", bi.bytes.to_vec());
+        d.equiv_of = Some(bam.name.clone());
+        out.push(d);
+    }
+    let bcf = get("bcf-sites-f2");
+    let ci = bcf.inner.as_ref().unwrap();
+    let crec_flush: Vec<usize> = std::iter::once(ci.header_end).chain(ci.record_ends.iter().copied().skip(1).step_by(2)).collect();
+    for &pad in &[1usize, 64] {
+        let (s, at) = bcf_padded(&ci.bytes, pad);
+        let shift = |v: &[usize]| v.iter().map(|x| x + pad).collect::<Vec<_>>();
+        let mut d = make_raw_doc(Format::Bcf, format!("bcfraw-padded{pad}"), "sites", s.clone());
+        d.equiv_of = Some(bcf.name.clone());
+        out.push(d);
+        let mut fl = if pad >= 64 { vec![at + pad / 3] } else { Vec::new() };
+        fl.extend(shift(&crec_flush));
+        let mut d = make_doc(Format::Bcf, format!("bcf-padded{pad}{}", if pad >= 64 { "-split" } else { "" }), "sites", bgzip_at(&s, &fl), false);
+        d.equiv_of = Some(bcf.name.clone());
+        out.push(d);
+    }
+    {
+        let mut d = make_raw_doc(Format::Bcf, "bcfraw-sites", "sites", ci.bytes.to_vec());
+        d.equiv_of = Some(bcf.name.clone());
+        out.push(d);
+    }
+
+    // ---- indexes without the optional n_no_coor tail
+    let bai = get("bai-of-bam-mapped-f2");
+    if bai.header_end + 8 == bai.bytes.len() {
+        let mut d = make_doc(Format::Bai, "bai-no-n_no_coor", "mapped", bai.bytes[..bai.header_end].to_vec(), false);
+        d.index_of = bai.index_of.clone();
+        out.push(d);
+    }
+    for n in ["csi-of-bcf-sites-f2", "tbi-of-vcfgz-sites-f2"] {
+        let d0 = get(n);
+        let i0 = d0.inner.as_ref().unwrap();
+        if i0.header_end + 8 == i0.bytes.len() {
+            let mut d = make_doc(d0.format, format!("{}-no-n_no_coor", d0.format.name()), &d0.set, bgzip_at(&i0.bytes[..i0.header_end], &[]), false);
+            d.index_of = d0.index_of.clone();
+            out.push(d);
+        }
+    }
+
+    // ---- BGZF with an empty member in the middle, and a file without the EOF marker
+    {
+        let text = vmc::oracle::bgzf::payload(vmc::oracle::bgzf::Payload::Text, 0, 700);
+        let (f, _) = vmc::oracle::bgzf::make_file(&[text[..300].to_vec(), Vec::new(), text[300..].to_vec()], true, 6);
+        out.push(make_doc(Format::Bgzf, "bgzf-empty-member-inside", "text", f, false));
+        let (f, _) = vmc::oracle::bgzf::make_file(&[text[..300].to_vec(), text[300..].to_vec()], false, 6);
+        out.push(make_doc(Format::Bgzf, "bgzf-no-eof-marker", "text", f, false));
+    }
+
+    // ---- text without a final newline
+    for n in ["sam-mapped", "vcf-sites", "fasta-w60", "fastq-simple", "gff-directives-escapes", "gtf-basic", "bed3", "fai-of-fasta-w60"] {
+        let d0 = get(n);
+        let mut b = d0.bytes.to_vec();
+        if b.last() == Some(&b'\n') {
+            b.pop();
+            out.push(make_doc(d0.format, format!("{n}-no-final-newline"), &d0.set, b, false));
+        }
+    }
+
+    // ---- bgzipped, tabix-indexed GFF3 / GTF / BED (data = Format::Bgzf, `set` names the text format)
+    for (name, kind, text) in [("gffgz", "gff.gz", write_gff(0)), ("gtfgz", "gtf.gz", write_gtf(0)), ("bedgz", "bed.gz", write_bed(6))] {
+        let ends = line_ends(&text);
+        let fl: Vec<usize> = ends.iter().copied().skip(1).step_by(2).collect();
+        let data = bgzip_at(&text, &fl);
+        let tbi = text_tabix(&data, kind);
+        let mut d = make_doc(Format::Bgzf, format!("{name}-indexed"), kind, data, false);
+        // the uncompressed stream is text: give it line / field boundaries
+        if let Some(inner) = d.inner.as_mut() {
+            let iw = walk::text(&text, b"\t;", None);
+            let i = Arc::make_mut(inner);
+            i.boundaries = Arc::new(iw.boundaries);
+            i.record_ends = Arc::new(iw.record_ends);
+        }
+        let mut t = make_doc(Format::Tbi, format!("tbi-of-{name}-indexed"), kind, tbi, false);
+        t.index_of = Some(d.name.clone());
+        out.push(d);
+        out.push(t);
+    }
+
+    // ---- CSI of a bgzipped SAM (the quick corpus has none)
+    if find(&base, "csi-of-samgz-mapped-f2").is_none() {
+        let d0 = get("samgz-mapped-f2");
+        let idx = with_temp(&d0.bytes, |p| sam::fs::index(p));
+        let mut d = make_doc(Format::Csi, "csi-of-samgz-mapped-f2", "mapped", csi_bytes(&ok("sam::fs::index", idx)), false);
+        d.index_of = Some(d0.name.clone());
+        out.push(d);
+    }
+    out
+}
+
+static QUICK_EXTRA: OnceLock<Vec<Doc>> = OnceLock::new();
+static THOROUGH_EXTRA: OnceLock<Vec<Doc>> = OnceLock::new();
+
+/// Additional documents that are **not** part of [`corpus`] (so that users of `corpus` are unaffected):
+/// hand-built legal layouts noodles does not write itself (BAM / BCF whose `l_text` covers NUL padding, also
+/// with a BGZF block boundary inside the padding, and as uncompressed streams; indexes without the optional
+/// `n_no_coor`; BGZF with an empty member / without EOF marker; text without a final newline) and bgzipped,
+/// tabix-indexed GFF3 / GTF / BED for the query stages.
+pub fn extra(thorough: bool) -> Vec<Doc> {
+    let cell = if thorough { &THOROUGH_EXTRA } else { &QUICK_EXTRA };
+    cell.get_or_init(|| build_extra(thorough)).clone()
 }
